@@ -1,8 +1,10 @@
 #!/bin/bash
-# runs every registered thorough check once (long); prints exit code and summary line per property
+# runs every registered thorough check once (long), N at a time (default 6); prints exit code and summary line per property.
+# Evidence goes to VERIF_EVIDENCE_DIR (default /tmp/ev_thorough) so that the committed quick-tier evidence is not overwritten.
 cd "$(dirname "$0")/.."
-for P in $(python3 -c "import json;print(' '.join(c['property_id'] for c in json.load(open('MANIFEST.json'))['checks']))"); do
-  S=$(date +%s); OUT=$(VERIF_EVIDENCE_DIR=${VERIF_EVIDENCE_DIR:-/tmp/ev_thorough} ./check $P --tier thorough 2>&1); RC=$?; E=$(date +%s)
-  echo "$P rc=$RC $((E-S))s | $(echo "$OUT" | tail -1)"
-  echo "$OUT" | grep "^VIOLATION\|^UNCONFIRMED" | cut -c1-200
-done
+N=${1:-6}
+one() { P=$1; S=$(date +%s); OUT=$(VERIF_EVIDENCE_DIR=${VERIF_EVIDENCE_DIR:-/tmp/ev_thorough} ./check $P --tier thorough 2>&1); RC=$?; E=$(date +%s)
+  echo "$P rc=$RC $((E-S))s | $(echo "$OUT" | tail -1)
+$(echo "$OUT" | grep "^VIOLATION\|^UNCONFIRMED\|^INCONCLUSIVE" | cut -c1-200)"; }
+export -f one
+python3 -c "import json;print('\n'.join(c['property_id'] for c in json.load(open('MANIFEST.json'))['checks']))" | xargs -P $N -I{} bash -c 'one {}'
